@@ -26,7 +26,14 @@ def t_of(h):
         return P.INT
     if h is bool:
         return P.BOOL
+    if h is type(None):
+        return P.NONE
+    if isinstance(h, type) and issubclass(h, tuple) and hasattr(h, "_fields"):
+        hints = typing.get_type_hints(h)
+        return P.Struct(h.__name__, {f: t_of(hints[f]) for f in h._fields}, h)
     o, a = typing.get_origin(h), typing.get_args(h)
+    if o in (set, frozenset):
+        return P.Set(t_of(a[0]))
     if o is list:
         return P.Lst(t_of(a[0]))
     if o is tuple:
@@ -56,6 +63,10 @@ def gen(rng, t, small=False):
         return None if rng.random() < 0.3 else gen(rng, t[1], small)
     if k == "list":
         return [gen(rng, t[1], small) for _ in range(rng.choice([0, 1, 2, 3, 4, 6]))]
+    if k == "set":
+        return {gen(rng, t[1], small) for _ in range(rng.choice([0, 1, 2, 3, 4, 6]))}
+    if k == "struct":
+        return t[3](*[gen(rng, ft, small) for _, ft in t[2]])
     if k == "tuple":
         return tuple(gen(rng, x, small) for x in t[1:])
     if k == "dict":
@@ -83,6 +94,10 @@ def to_lean(v, t):
     if k == "dict":
         return "([%s] : %s)" % (", ".join("(%s, %s)" % (to_lean(a, t[1]), to_lean(b, t[2])) for a, b in v.items()),
                                 P.lean_type(t))
+    if k == "set":
+        return "([%s] : %s)" % (", ".join(to_lean(x, t[1]) for x in v), P.lean_type(t))
+    if k == "struct":
+        return "(⟨%s⟩ : %s)" % (", ".join(to_lean(getattr(v, f), ft) for f, ft in t[2]), t[1])
     raise TypeError(t)
 
 
@@ -101,7 +116,57 @@ def canon(v, t):
         return [canon(x, t[1]) for x in v]
     if k == "tuple":
         return [canon(x, tx) for x, tx in zip(v, t[1:])]
+    if k == "set":
+        return sorted((canon(x, t[1]) for x in v), key=json.dumps)
+    if k == "dict":        # insertion order is compared
+        return [[canon(a, t[1]), canon(b, t[2])] for a, b in v.items()]
+    if k == "struct":
+        return [canon(getattr(v, f), ft) for f, ft in t[2]]
     raise TypeError(t)
+
+
+def norm(g, t):
+    """the Lean answer (parsed JSON) with every set sorted like `canon` does"""
+    k = t[0]
+    if g is None or k in ("str", "int", "bool", "none"):
+        return g
+    if k == "opt":
+        return [norm(g[0], t[1])]
+    if k == "list":
+        return [norm(x, t[1]) for x in g]
+    if k == "set":
+        return sorted((norm(x, t[1]) for x in g), key=json.dumps)
+    if k == "tuple":
+        return [norm(x, tx) for x, tx in zip(g, t[1:])]
+    if k == "dict":
+        return [[norm(a, t[1]), norm(b, t[2])] for a, b in g]
+    if k == "struct":
+        return [norm(x, ft) for x, (_, ft) in zip(g, t[2])]
+    raise TypeError(t)
+
+
+def struct_preamble(specs):
+    """Lean declarations (structure + JSON printer) of the NamedTuple classes the sample Specs mention"""
+    found = {}
+    for sp in specs:
+        for t in [t for _, t in sp.params] + [sp.ret]:
+            P._structs_of(t, found)
+    out = []
+    done = []
+
+    def emit(t):
+        if t[1] in done:
+            return
+        for _, ft in t[2]:
+            if ft[0] == "struct":
+                emit(ft)
+        done.append(t[1])
+        out.append("structure %s where" % t[1])
+        out.extend("  %s : %s" % (f, P.lean_type(ft)) for f, ft in t[2])
+        out.append("")
+    for t in found.values():
+        emit(t)
+    return out, list(done), found
 
 
 PRELUDE = r"""
@@ -133,9 +198,16 @@ def ds_key_type(sp):
 
 def run(specs, n, seed, label):
     rng = random.Random(seed)
-    text = P.translate_module(specs, "Verif.Trans.SelfTest")
-    lines = [text, PRELUDE, "open Verif.Trans.SelfTest Verif.PyRt"]
+    pre, snames, found = struct_preamble(specs)
+    text = P.translate_module(specs, "Verif.Trans.SelfTest", preamble=pre)
+    lines = [text, PRELUDE]
+    for nm in snames:
+        fields = [f for f, _ in found[nm][2]]
+        lines.append("instance : ToJ %s := ⟨fun v => \"[\" ++ \", \".intercalate [%s] ++ \"]\"⟩"
+                     % (nm, ", ".join("toJ v.%s" % f for f in fields)))
+    lines.append("open Verif.Trans.SelfTest Verif.PyRt")
     expected = []
+    rets = []
     chunk = []
     nchunks = 0
 
@@ -155,8 +227,14 @@ def run(specs, n, seed, label):
             kw = dict(sp.fixed)
             try:
                 import copy
-                res = sp.fn(*copy.deepcopy(args), **kw)
-                exp = canon(res, sp.ret)
+                called = copy.deepcopy(args)
+                res = sp.fn(*called, **kw)
+                if sp.outparams:       # the result, then the new values of the mutated arguments
+                    after = dict(zip([p for p, _ in sp.params], called))
+                    res = tuple(([] if sp.ret == P.NONE else [res]) + [after[p] for p in sp.outparams])
+                    if len(res) == 1:
+                        res = res[0]
+                exp = canon(res, sp.lean_ret())
                 if sp.monadic:
                     exp = {"ok": exp}
             except Exception as e:     # noqa: BLE001 — the exception class is the observation
@@ -164,7 +242,9 @@ def run(specs, n, seed, label):
                 if not sp.monadic:
                     exp = {"err-but-translated-as-pure": type(e).__name__}
             expected.append((sp.name, args, exp))
-            chunk.append("toJ (%s)" % " ".join([sp.name] + [to_lean(a, t) for a, (_, t) in zip(args, sp.params)]))
+            chunk.append("toJ (%s)" % " ".join([sp.name] + (["%d" % S.FUEL] if sp.fuel else [])
+                                               + [to_lean(a, t) for a, (_, t) in zip(args, sp.params)]))
+            rets.append(sp.lean_ret())
             if len(chunk) >= 40:
                 flush()
     flush()
@@ -182,7 +262,11 @@ def run(specs, n, seed, label):
     bad = 0
     per = {}
     errs = {}
-    for (name, args, exp), g in zip(expected, got):
+    for (name, args, exp), g, rt in zip(expected, got, rets):
+        if isinstance(g, dict) and "ok" in g:
+            g = {"ok": norm(g["ok"], rt)}
+        elif not isinstance(g, dict):
+            g = norm(g, rt)
         c = per.setdefault(name, [0, 0])
         c[0] += 1
         if isinstance(exp, dict) and "err" in exp:
@@ -201,6 +285,13 @@ def run(specs, n, seed, label):
 def sample_specs():
     out = []
     for name, fn in vars(S).items():
+        if isinstance(fn, type) and issubclass(fn, tuple) and hasattr(fn, "_fields") and fn.__module__ == S.__name__:
+            st = t_of(fn)
+            for mname, m in vars(fn).items():        # the NamedTuple's own methods
+                if callable(m) and not mname.startswith("_") and hasattr(m, "__code__") and mname == "add":
+                    h = typing.get_type_hints(m)
+                    ps = [(p, st if p == "self" else t_of(h[p])) for p in m.__code__.co_varnames[:m.__code__.co_argcount]]
+                    out.append(P.Spec(m, "%s_%s" % (name, mname), ps, t_of(h["return"])))
         if name.startswith("s_") and callable(fn):
             h = typing.get_type_hints(fn)
             params = [(p, t_of(h[p])) for p in fn.__code__.co_varnames[:fn.__code__.co_argcount]]
@@ -208,20 +299,22 @@ def sample_specs():
     return out
 
 
-def refusals():
-    """every u_* sample must raise Unsupported"""
+def refusals(done_specs=()):
+    """every u_* sample must raise Unsupported (callees among the accepted samples count as translated)"""
     bad = 0
+    done = {id(sp.fn): sp for sp in done_specs}
     names = [n for n in vars(S) if n.startswith("u_")]
     for name in names:
         fn = getattr(S, name)
         h = typing.get_type_hints(fn)
         params = [(p, t_of(h[p])) for p in fn.__code__.co_varnames[:fn.__code__.co_argcount]]
         try:
-            P.translate_function(P.Spec(fn, name, params, t_of(h["return"])))
+            P.translate_function(P.Spec(fn, name, params, t_of(h["return"])), done)
             print("  NOT REFUSED: %s" % name)
             bad += 1
-        except P.Unsupported:
-            pass
+        except P.Unsupported as e:
+            if os.environ.get("PY2LEAN_VERBOSE"):
+                print("  refused: %s" % e)
     print("refusals: %d of %d unsupported samples refused" % (len(names) - bad, len(names)))
     return bad
 
@@ -241,19 +334,44 @@ def property_specs():
     return out
 
 
+def whitespace_table():
+    """PyRt.pyWhitespaceCodes against CPython's str.isspace / str.split() for EVERY code point"""
+    fn = os.path.join(paths.LEAN, "Scratch", "SelfTest_ws_%d.lean" % os.getpid())
+    os.makedirs(os.path.dirname(fn), exist_ok=True)
+    with open(fn, "w", encoding="utf-8") as f:
+        f.write("import Verif.Common.PyRt\n#eval IO.println (\"R \" ++ toString Verif.PyRt.pyWhitespaceCodes)\n")
+    p = subprocess.run(["lake", "env", "lean", fn], cwd=paths.LEAN, stdout=subprocess.PIPE, stderr=subprocess.STDOUT,
+                       text=True, timeout=600)
+    os.remove(fn)
+    got = [json.loads(ln[2:]) for ln in p.stdout.split("\n") if ln.startswith("R ")]
+    want = [c for c in range(0x110000) if not 0xD800 <= c <= 0xDFFF and chr(c).isspace()]
+    want2 = [c for c in range(0x110000) if not 0xD800 <= c <= 0xDFFF and ("a" + chr(c) + "b").split() == ["a", "b"]]
+    want3 = [c for c in range(0x110000) if not 0xD800 <= c <= 0xDFFF and (chr(c) + "b").strip() == "b"]
+    ok = got == [want] and want == want2 == want3
+    print("whitespace table: %d code points, %s CPython's isspace/split()/strip() on all 0x110000 code points"
+          % (len(want), "equal to" if ok else "DIFFERENT FROM"))
+    return 0 if ok else 1
+
+
 def main():
     n = int(sys.argv[1]) if len(sys.argv) > 1 else 300
     seed = int(sys.argv[2]) if len(sys.argv) > 2 else 0
     total = bad = 0
     print("samples:")
-    t, b = run(sample_specs(), n, seed, "samples")
+    sspecs = sample_specs()
+    t, b = run(sspecs, n, seed, "samples")
     total, bad = total + t, bad + b
     for pid, specs in property_specs().items():
-        if all(k[0] != "struct" for sp in specs for _, k in sp.params):
+        # specs that mention a caller-declared structure are skipped (no input generator / Lean import for them here)
+        plain = [sp for sp in specs if "struct" not in repr((sp.params, sp.ret))]
+        if len(plain) < len(specs):
+            print("%s: skipped (struct types): %s" % (pid, ", ".join(sp.name for sp in specs if sp not in plain)))
+        if plain:
             print("%s:" % pid)
-            t, b = run(specs, n, seed, pid)
+            t, b = run(plain, n, seed, pid)
             total, bad = total + t, bad + b
-    bad += refusals()
+    bad += refusals(sspecs)
+    bad += whitespace_table()
     print("py2lean selftest: %d evaluations compared, %d mismatches/non-refusals" % (total, bad))
     return 1 if bad else 0
 
